@@ -42,6 +42,8 @@ func tieCoord(rng *rand.Rand) float64 {
 	return base + float64(rng.Intn(9))*1e-6
 }
 
+func decimalCoord(rng *rand.Rand) float64 { return math.Round((rng.Float64()*170-85)*1e6) / 1e6 }
+
 func geoJSON(rng *rand.Rand, coord func(*rand.Rand) float64) string {
 	p := func() string { return fmt.Sprintf("[%v,%v]", coord(rng), coord(rng)) }
 	ring := func() string {
@@ -174,6 +176,23 @@ func oracleColl(r *hx.Result, c *verifapi.Coll, hist []string) {
 		spo = append(spo, e.Obj)
 	}
 	cmp("spatial", setOf(spo, "spatial index"), wantSp)
+	// the spatial *search* path with windows aligned to the object's own edges: the object itself as
+	// the query, and a window that has the object on its south-west corner (min edge = the object's max
+	// edge). Whenever the exact predicate accepts the object, the index search must return it.
+	for _, o := range objs {
+		a := verifapi.Attrs(o)
+		if !a.Spatial || a.Empty {
+			continue
+		}
+		if verifapi.GeoIntersects(o, o.Geo()) && !containsObj(c.Intersects(o.Geo(), 0), o) {
+			fail("path-spatial-search", fmt.Sprintf("Intersects(query = object %q itself) does not return %q although the exact predicate accepts it and Get returns it", a.ID, a.ID))
+		}
+		wjs := fmt.Sprintf(`{"type":"Polygon","coordinates":[[[%v,%v],[%v,%v],[%v,%v],[%v,%v],[%v,%v]]]}`,
+			a.Rect[2], a.Rect[3], a.Rect[2]+1, a.Rect[3], a.Rect[2]+1, a.Rect[3]+1, a.Rect[2], a.Rect[3]+1, a.Rect[2], a.Rect[3])
+		if q, err := verifapi.ParseGeo(wjs); err == nil && verifapi.GeoIntersects(o, q) && !containsObj(c.Intersects(q, 0), o) {
+			fail("path-spatial-search", fmt.Sprintf("Intersects(window with %q on its south-west corner: %s) does not return %q although the exact predicate accepts it", a.ID, wjs, a.ID))
+		}
+	}
 	desc := c.Scan(true)
 	for i := range desc {
 		if len(desc) != len(objs) || desc[i] != objs[len(objs)-1-i] {
@@ -196,6 +215,15 @@ func oracleColl(r *hx.Result, c *verifapi.Coll, hist []string) {
 			fail("expires-order", "ScanExpires not in (deadline,id) order")
 		}
 	}
+}
+
+func containsObj(l []*verifapi.Obj, o *verifapi.Obj) bool {
+	for _, x := range l {
+		if x == o {
+			return true
+		}
+	}
+	return false
 }
 
 // bounds oracle: exact bounding box of the spatial non-empty objects vs Bounds()
@@ -274,9 +302,13 @@ func inPackage(r *hx.Result, cfg hx.Config, rng *rand.Rand, drv *model.Driver) {
 	}
 	for h := 0; h < histories; h++ {
 		coord := gridCoord
-		tieMode := h%6 == 5 // a sixth of the histories use near-tie coordinates (known finding C19-bounds-f32-key)
-		if tieMode {
+		// a sixth of the histories use near-tie coordinates (known finding C19-bounds-f32-key), another sixth
+		// arbitrary 6-decimal coordinates (not float32-representable: the R-tree rectangles are really rounded)
+		tieMode := h%6 >= 4
+		if h%6 == 5 {
 			coord = tieCoord
+		} else if h%6 == 4 {
+			coord = decimalCoord
 		}
 		c := verifapi.NewColl()
 		drv.Ask("new")
@@ -636,7 +668,11 @@ func blackBox(r *hx.Result, cfg hx.Config, rng *rand.Rand) {
 					case 0, 1:
 						args = append(args, "STRING", []string{"x", "y", "", "hello world", "x"}[rng.Intn(5)])
 					case 2:
-						args = append(args, "POINT", fmt.Sprint(gridCoord(rng)/8), fmt.Sprint(gridCoord(rng)/4))
+						if rng.Intn(2) == 0 {
+							args = append(args, "POINT", fmt.Sprint(gridCoord(rng)/8), fmt.Sprint(gridCoord(rng)/4))
+						} else { // 6-decimal coordinates: the index rectangle is a genuinely rounded one
+							args = append(args, "POINT", fmt.Sprint(decimalCoord(rng)), fmt.Sprint(decimalCoord(rng)*2))
+						}
 					case 3:
 						// (SET ... BOUNDS / HASH store a 2-point Rect whose dumped text re-parses as a 5-point
 						// Polygon: the dump cannot tell them apart, so rectangles are exercised in-package only)
@@ -874,6 +910,33 @@ func checkServer(r *hx.Result, c *srv.Conn, hist []string, round, step int) {
 		sort.Strings(wantSp)
 		if strings.Join(wids, "\x01") != strings.Join(wantSp, "\x01") {
 			fail("spatial-ids", fmt.Sprintf("INTERSECTS %s IDS BOUNDS world = %q, the retrievable non-empty geometries are %q", key, wids, wantSp))
+		}
+		// the spatial search path with windows aligned to the object's own edges
+		for _, d := range objs {
+			if isStringObj(d.obj) {
+				continue
+			}
+			o, err := verifapi.NewGeoObj(d.id, d.obj, 0)
+			if err != nil || verifapi.Attrs(o).Empty {
+				continue
+			}
+			a := verifapi.Attrs(o)
+			ff := func(x float64) string { return strconv.FormatFloat(x, 'f', -1, 64) }
+			for _, area := range [][]string{{"GET", key, d.id}, {"BOUNDS", ff(a.Rect[3]), ff(a.Rect[2]), ff(a.Rect[3] + 1), ff(a.Rect[2] + 1)}} {
+				t := c.MustDo(append([]string{"TEST", "GET", key, d.id, "INTERSECTS"}, area...)...)
+				if t.Kind != ':' || t.Int != 1 {
+					continue
+				}
+				got := idsArr(c.MustDo(append([]string{"INTERSECTS", key, "LIMIT", "100000", "IDS"}, area...)...))
+				found := false
+				for _, x := range got {
+					found = found || x == d.id
+				}
+				if !found {
+					fail("spatial-search-loses", fmt.Sprintf("INTERSECTS %s IDS %s does not return %q although GET returns it and TEST GET %s %s INTERSECTS %s = 1",
+						key, strings.Join(area, " "), d.id, key, d.id, strings.Join(area, " ")))
+				}
+			}
 		}
 		// BOUNDS
 		bv := c.MustDo("BOUNDS", key)
